@@ -196,3 +196,18 @@ Lemma kin_utils : forall omega k nn : R, k <> 0 -> nn <> 0 ->
   phase_velocity_gen omega k = omega / k /\ wavenumber_to_frequency_gen k nn = k * light_speed / nn /\
   wavenumber_to_frequency_gen ((nn * omega) / 299792458) nn = omega.
 Proof. intros omega k nn Hk Hn. unfold phase_velocity_gen, wavenumber_to_frequency_gen, light_speed. repeat split; try reflexivity. field. exact Hn. Qed.
+
+Print Assumptions kin_slope_is_central_difference.
+Print Assumptions kin_group_index_off.
+Print Assumptions kin_group_index_vs_textbook.
+Print Assumptions kin_group_velocity_vs_textbook.
+Print Assumptions kin_vg_ng_off.
+Print Assumptions kin_positive_off.
+Print Assumptions kin_phase_velocity_bounds_off.
+Print Assumptions kin_slope_vs_derivative.
+Print Assumptions kin_group_velocity_vs_derivative.
+Print Assumptions kin_transit_time_off.
+Print Assumptions kin_vg_ng_on.
+Print Assumptions kin_transit_time_on.
+Print Assumptions kin_off_is_on_without_grating_term.
+Print Assumptions kin_utils.
